@@ -16,7 +16,7 @@
 (***************************************************************************)
 EXTENDS CertReload, IOUtils
 Rec == ndJsonDeserialize(IOEnv.TRACE)
-Kinds == {"write", "reload", "obs", "race", "end"}
+Kinds == {"write", "reload", "obs", "race", "init", "end"}
 InitSt(e) == [disk |-> InitDisk, srv |-> InitSrv, ce |-> IF "consts" \in DOMAIN e THEN e.consts.checkExpiry ELSE TRUE,
               reloaded |-> FALSE]
 Ok(s)      == [ok |-> TRUE, st |-> s, why |-> "", dev |-> "", site |-> ""]
@@ -45,9 +45,11 @@ Apply(s, e) ==
             IF e.mismatch > 0 THEN No(s, "after a reload that overlapped a replacement of the certificate file, the reported certificate information describes another certificate than the one being served")
             ELSE IF e.expired > 0 THEN No(s, "a reload that overlapped a replacement of the certificate file installed an expired certificate although expiry is checked")
             ELSE Ok(s)
+      \* the initial load: a reloader comes up exactly on a complete, matching pair
+      [] e.ev = "init" -> IF e.ok = e.valid THEN Ok(s) ELSE No(s, "the reloader came up on files that do not hold a complete, matching pair (or refused a valid pair)")
       [] e.ev = "end" -> IF e.panics = 0 THEN Ok(s) ELSE No(s, "a task panicked")
       [] OTHER -> No(s, "unknown event")
-NonTrivial(e, r) == r.ok /\ (e.ev = "reload" \/ (e.ev = "race" /\ e.ok > 0))
+NonTrivial(e, r) == r.ok /\ (e.ev = "reload" \/ e.ev = "init" \/ (e.ev = "race" /\ e.ok > 0))
 VARIABLES l, st, bad, devs, skip, scn, cnt, nt
 TK == INSTANCE TraceKit
 TSpec == TK!Spec
